@@ -5,14 +5,13 @@ From SV Require Model.Utf8 Model.Parser Model.Template Model.Transforms Model.Ro
                Model.Framing.
 From SV Require Import Model.Pipeline.
 
-Module Tp := SV.Model.Template.
 
 (* ---------- programs: C15's byte encoding, extended by tags 14 (parseTime) and 15 (redactEmail) ---------- *)
 
 Inductive xcfg :=
-| XCBase (c : T.cfg)
-| XCIf (m : T.matcher_cfg) (th : list xcfg)
-| XCSwitch (cs : list (T.matcher_cfg * list xcfg))
+| XCBase (c : Transforms.cfg)
+| XCIf (m : Transforms.matcher_cfg) (th : list xcfg)
+| XCSwitch (cs : list (Transforms.matcher_cfg * list xcfg))
 | XCBlock (b : list xcfg)
 | XCParseTime (k l : bytes)
 | XCRedact (k l : bytes).
@@ -25,37 +24,37 @@ Fixpoint px_node (fuel : nat) (s : bytes) : option (xcfg * bytes) :=
     | [] => None
     | tag :: s1 =>
       if (tag =? 4)%N then
-        T.pmap (fun x => XCIf (fst x) (snd x)) (T.p_pair T.p_matcher (T.p_listc (px_node f)) s1)
+        Transforms.pmap (fun x => XCIf (fst x) (snd x)) (Transforms.p_pair Transforms.p_matcher (Transforms.p_listc (px_node f)) s1)
       else if (tag =? 5)%N then
-        T.pmap XCSwitch (T.p_listc (T.p_pair T.p_matcher (T.p_listc (px_node f))) s1)
-      else if (tag =? 6)%N then T.pmap XCBlock (T.p_listc (px_node f) s1)
-      else if (tag =? 14)%N then T.pmap (fun x => XCParseTime (fst x) (snd x)) (T.p_pair T.p_str T.p_str s1)
-      else if (tag =? 15)%N then T.pmap (fun x => XCRedact (fst x) (snd x)) (T.p_pair T.p_str T.p_str s1)
-      else T.pmap XCBase (T.p_node 1 s)       (* a leaf of C15 (tags 1-3, 7-13) *)
+        Transforms.pmap XCSwitch (Transforms.p_listc (Transforms.p_pair Transforms.p_matcher (Transforms.p_listc (px_node f))) s1)
+      else if (tag =? 6)%N then Transforms.pmap XCBlock (Transforms.p_listc (px_node f) s1)
+      else if (tag =? 14)%N then Transforms.pmap (fun x => XCParseTime (fst x) (snd x)) (Transforms.p_pair Transforms.p_str Transforms.p_str s1)
+      else if (tag =? 15)%N then Transforms.pmap (fun x => XCRedact (fst x) (snd x)) (Transforms.p_pair Transforms.p_str Transforms.p_str s1)
+      else Transforms.pmap XCBase (Transforms.p_node 1 s)       (* a leaf of C15 (tags 1-3, 7-13) *)
     end
   end.
 
 Definition parse_xprogram (s : bytes) : option (list xcfg) :=
-  match T.p_listc (px_node (S (length s))) s with
+  match Transforms.p_listc (px_node (S (length s))) s with
   | Some (l, []) => Some l
   | _ => None
   end.
 
 Section Load.
-Variable O : T.oracles.
+Variable O : Transforms.oracles.
 Variable schema : list bytes.
 
 Definition ok_unit (o : outcome unit) : bool := match o with Ok _ => true | _ => false end.
 Definition oopt {A} (o : outcome A) : option A := match o with Ok a => Some a | _ => None end.
 
-Definition load_matcher (m : T.matcher_cfg) : option T.matcher :=
+Definition load_matcher (m : Transforms.matcher_cfg) : option Transforms.matcher :=
   match m with
   | [] => None
-  | _ => if T.matcher_unmarshals O m && T.verify_matcher schema m then oopt (T.new_matcher O schema m) else None
+  | _ => if Transforms.matcher_unmarshals O m && Transforms.verify_matcher schema m then oopt (Transforms.new_matcher O schema m) else None
   end.
 
 Definition key_loc (k : bytes) : option nat :=
-  match k with [] => None | _ => Tp.find_index schema k end.
+  match k with [] => None | _ => Template.find_index schema k end.
 
 (* VerifyConfig + NewTransform of every node; None = the configuration is rejected (or would not construct) *)
 Fixpoint xload (c : xcfg) {struct c} : option xtf :=
@@ -66,7 +65,7 @@ Fixpoint xload (c : xcfg) {struct c} : option xtf :=
     end in
   match c with
   | XCBase b =>
-    if T.unmarshals O b && ok_unit (T.verify O schema b) then option_map XBase (oopt (T.new_tf O schema b)) else None
+    if Transforms.unmarshals O b && ok_unit (Transforms.verify O schema b) then option_map XBase (oopt (Transforms.new_tf O schema b)) else None
   | XCIf m th =>
     match th with
     | [] => None
@@ -77,7 +76,7 @@ Fixpoint xload (c : xcfg) {struct c} : option xtf :=
     | [] => None
     | _ =>
       option_map XSwitch
-        ((fix lc (l : list (T.matcher_cfg * list xcfg)) : option xcases :=
+        ((fix lc (l : list (Transforms.matcher_cfg * list xcfg)) : option xcases :=
             match l with
             | [] => Some XKNil
             | (m, th) :: l' =>
@@ -105,17 +104,17 @@ End Load.
 
 (* ---------- serialization section of an output ---------- *)
 
-Definition p_step (s : bytes) : option (S.rewriter_cfg * bytes) :=
+Definition p_step (s : bytes) : option (Serializer.rewriter_cfg * bytes) :=
   match s with
-  | 0%N :: r => Some (S.RcCopy, r)
-  | 1%N :: r => Some (S.RcUnescape, r)
-  | 2%N :: r => T.pmap S.RcInline (T.p_str r)
+  | 0%N :: r => Some (Serializer.RcCopy, r)
+  | 1%N :: r => Some (Serializer.RcUnescape, r)
+  | 2%N :: r => Transforms.pmap Serializer.RcInline (Transforms.p_str r)
   | _ => None
   end.
 
-Definition p_ser (s : bytes) : option S.ser_config :=
-  match T.p_pair (T.p_listc T.p_str) (T.p_pair (T.p_listc T.p_str) (T.p_listc (T.p_pair T.p_str (T.p_listc p_step)))) s with
-  | Some ((env, (hidden, rw)), []) => Some {| S.c_env := env; S.c_hidden := hidden; S.c_rewrite := rw |}
+Definition p_ser (s : bytes) : option Serializer.ser_config :=
+  match Transforms.p_pair (Transforms.p_listc Transforms.p_str) (Transforms.p_pair (Transforms.p_listc Transforms.p_str) (Transforms.p_listc (Transforms.p_pair Transforms.p_str (Transforms.p_listc p_step)))) s with
+  | Some ((env, (hidden, rw)), []) => Some {| Serializer.c_env := env; Serializer.c_hidden := hidden; Serializer.c_rewrite := rw |}
   | _ => None
   end.
 
@@ -124,7 +123,7 @@ Definition split_names (s : bytes) : list bytes := match s with [] => [] | _ => 
 Fixpoint locate_names (schema : list bytes) (names : list bytes) : option (list nat) :=
   match names with
   | [] => Some []
-  | n :: r => match Tp.find_index schema n, locate_names schema r with Some i, Some l => Some (i :: l) | _, _ => None end
+  | n :: r => match Template.find_index schema n, locate_names schema r with Some i, Some l => Some (i :: l) | _, _ => None end
   end.
 
 Definition b_facility : bytes := [102;97;99;105;108;105;116;121]%N.
@@ -152,7 +151,7 @@ Fixpoint take_outs (n : nat) (ss : list bytes) (zs : list Z) : option (list out_
     match ss, zs with
     | s :: ss', mode :: maxr :: maxb :: zs' =>
       match p_ser s, take_outs n' ss' zs' with
-      | Some sc, Some r => Some ({| oc_ser := sc; oc_pack := K.fluentd_config mode maxr maxb [] |} :: r)
+      | Some sc, Some r => Some ({| oc_ser := sc; oc_pack := Packer.fluentd_config mode maxr maxb [] |} :: r)
       | _, _ => None
       end
     | _, _ => None
@@ -160,7 +159,7 @@ Fixpoint take_outs (n : nat) (ss : list bytes) (zs : list Z) : option (list out_
   end.
 
 (* the configuration part of a case: sargs 0..6 and one per output, zargs 0..6 and three per output *)
-Definition decode_config (O : T.oracles) (c : case) : option (config * list bytes * list Z) :=
+Definition decode_config (O : Transforms.oracles) (c : case) : option (config * list bytes * list Z) :=
   let ss := c_sargs c in
   let zs := c_zargs c in
   let schema := split_names (sarg c 2) in
@@ -173,11 +172,11 @@ Definition decode_config (O : T.oracles) (c : case) : option (config * list byte
   | Some xe, Some xt =>
     match xload_all O schema xe, xload_all O schema xt, syslog_locs schema,
           locate_names schema onames, locate_names schema mnames,
-          R.parse_template onames (sarg c 4), take_outs nout (skipn 7 ss) (skipn 7 zs),
-          Ps.new_parser (Z.to_N (zarg c 1)) (Z.to_N (zarg c 2)) mapping with
+          Routing.parse_template onames (sarg c 4), take_outs nout (skipn 7 ss) (skipn 7 zs),
+          Parser.new_parser (Z.to_N (zarg c 1)) (Z.to_N (zarg c 2)) mapping with
     | Some ex, Some tr, Some locs, Some okeys, Some mkeys, Some tag, Some outs, Ok pcfg =>
-      if (length schema <=? nfields)%nat && negb (S.is_nil onames) &&
-         forallb (fun o => S.verify_config schema (oc_ser o)) outs && negb (S.is_nil outs) && negb (S.is_nil mapping)
+      if (length schema <=? nfields)%nat && negb (Serializer.is_nil onames) &&
+         forallb (fun o => Serializer.verify_config schema (oc_ser o)) outs && negb (Serializer.is_nil outs) && negb (Serializer.is_nil mapping)
       then
         Some ({| c_parser := pcfg; c_nfields := nfields; c_schema := schema; c_locs := locs;
                  c_extract := ex; c_okeys := okeys; c_tag := tag; c_mkeys := mkeys; c_transforms := tr;
@@ -195,7 +194,7 @@ Fixpoint take_table (n : nat) (ss : list bytes) (zs : list Z) : list bytes :=
   match n with
   | O => []
   | S n' =>
-    (nth 0 ss [] ++ Ps.repeat_app (nth 1 ss []) (Z.to_nat (hd 0%Z zs)) (nth 2 ss [])) :: take_table n' (skipn 3 ss) (tl zs)
+    (nth 0 ss [] ++ Parser.repeat_app (nth 1 ss []) (Z.to_nat (hd 0%Z zs)) (nth 2 ss [])) :: take_table n' (skipn 3 ss) (tl zs)
   end.
 
 (* ---------- canonical output ---------- *)
@@ -203,16 +202,16 @@ Fixpoint take_table (n : nat) (ss : list bytes) (zs : list Z) : list bytes :=
 Definition dec_nat (n : nat) : bytes := dec_of_Z (Z.of_nat n).
 Definition dec_N (n : N) : bytes := dec_of_Z (Z.of_N n).
 
-Definition show_chunk (o : option (K.echunk bytes)) : bytes :=
+Definition show_chunk (o : option (Packer.echunk bytes)) : bytes :=
   match o with
   | None => []
-  | Some e => [43; 99]%N ++ dec_of_Z (K.e_size e)         (* "+c<records>" *)
+  | Some e => [43; 99]%N ++ dec_of_Z (Packer.e_size e)         (* "+c<records>" *)
   end.
 
-Fixpoint show_outs (streams : list bytes) (chunks : list (option (K.echunk bytes))) : list bytes :=
+Fixpoint show_outs (streams : list bytes) (chunks : list (option (Packer.echunk bytes))) : list bytes :=
   match streams with
   | [] => []
-  | s :: ss => (Ps.digest s ++ show_chunk (hd None chunks)) :: show_outs ss (tl chunks)
+  | s :: ss => (Parser.digest s ++ show_chunk (hd None chunks)) :: show_outs ss (tl chunks)
   end.
 
 Definition show_result (r : rec_result) : bytes :=
@@ -225,17 +224,17 @@ Definition show_result (r : rec_result) : bytes :=
 
 (* FlushBuffer of every chunk maker when the pipeline stops: number of records of the last chunk, 0 = none *)
 Definition show_flush (cfg : config) (pi : pinst) : bytes :=
-  join 44%N (map (fun op => match snd (K.flush_buffer bytes (with_tag (oc_pack (fst op)) (pi_tag pi)) (snd op)) with
-                            | Some e => dec_of_Z (K.e_size e)
+  join 44%N (map (fun op => match snd (Packer.flush_buffer bytes (with_tag (oc_pack (fst op)) (pi_tag pi)) (snd op)) with
+                            | Some e => dec_of_Z (Packer.e_size e)
                             | None => [48]%N
                             end)
                  (combine (c_outputs cfg) (pi_packs pi))).
 
 Definition show_pipe (cfg : config) (pi : pinst) : bytes :=
-  join 46%N (map hex (pi_keys pi)) ++ 58%N :: hex (pi_tag pi) ++ 58%N :: show_flush cfg pi.
+  hex (join 44%N (pi_keys pi)) ++ 58%N :: hex (pi_tag pi) ++ 58%N :: show_flush cfg pi.
 
-Definition merge_counters (a b : T.counters) : T.counters :=
-  fold_left (fun acc e => T.cnt_add acc (fst e) (fst (snd e)) (snd (snd e))) b a.
+Definition merge_counters (a b : Transforms.counters) : Transforms.counters :=
+  fold_left (fun acc e => Transforms.cnt_add acc (fst e) (fst (snd e)) (snd (snd e))) b a.
 
 Definition show_counter (e : bytes * (Z * Z)) : bytes :=
   hex (fst e) ++ 61%N :: dec_of_Z (fst (snd e)) ++ 47%N :: dec_of_Z (snd (snd e)).
@@ -243,8 +242,8 @@ Definition show_counter (e : bytes * (Z * Z)) : bytes :=
 Definition show_state (cfg : config) (g : gstate) (c : cstate) : bytes :=
   let i := cs_input c in
   join 59%N (map (show_pipe cfg) (g_pipes g)) ++ 35%N ::
-  join 44%N (map dec_N [Ps.passed_n i; Ps.passed_bytes i; Ps.dropped_n i; Ps.dropped_bytes i;
-                        Ps.overflow_n i; Ps.overflow_bytes i]) ++ 35%N ::
+  join 44%N (map dec_N [Parser.passed_n i; Parser.passed_bytes i; Parser.dropped_n i; Parser.dropped_bytes i;
+                        Parser.overflow_n i; Parser.overflow_bytes i]) ++ 35%N ::
   join 44%N (map show_counter (cs_ecnt c)) ++ 35%N ::
   join 44%N (map dec_N [fold_left N.add (map pi_passed (g_pipes g)) 0%N; fold_left N.add (map pi_dropped (g_pipes g)) 0%N]) ++ 35%N ::
   join 44%N (map show_counter (fold_left merge_counters (map pi_custom (g_pipes g)) [])) ++ 35%N ::
@@ -268,14 +267,14 @@ Definition sample_mapping : list bytes :=
    [110;111;116;105;99;101]; [105;110;102;111]; [100;101;98;117;103]]%N.
 
 Definition run_sample (c : case) : bytes :=
-  match Ps.new_parser (Z.to_N (zarg c 0)) (Z.to_N (zarg c 1)) sample_mapping with
+  match Parser.new_parser (Z.to_N (zarg c 0)) (Z.to_N (zarg c 1)) sample_mapping with
   | Ok pcfg =>
     let zs := skipn 2 (c_zargs c) in
     let ntab := Z.to_nat (hd 0%Z zs) in
     let table := take_table ntab (c_sargs c) (tl zs) in
     let seq := map (fun i => nth (Z.to_nat i) table []) (skipn (1 + ntab) zs) in
     s_sample ++ 58%N ::
-    map (fun x => match fst (Ps.parse pcfg Ps.counters_zero x) with
+    map (fun x => match fst (Parser.parse pcfg Parser.counters_zero x) with
                   | Ok None => 68%N | Ok (Some _) => 65%N | _ => 88%N end) seq
   | _ => s_cfgerr
   end.
@@ -288,16 +287,16 @@ Definition run_case_C07 (c : case) : bytes :=
   | 2%N => run_sample c
   | 3%N => s_child_ok
   | k =>
-    match decode_config T.tiny_oracles c with
+    match decode_config Transforms.tiny_oracles c with
     | None => s_cfgerr
     | Some (cfg, ss, zs) =>
       let now := (zarg c 5, zarg c 6) in
       if (k =? 1)%N then
-        show_run cfg (conn_run T.tiny_oracles cfg g_init now 0%Z (F.decode_events zs ss))
+        show_run cfg (conn_run Transforms.tiny_oracles cfg g_init now 0%Z (Framing.decode_events zs ss))
       else
         let ntab := Z.to_nat (hd 0%Z zs) in
         let table := take_table ntab ss (tl zs) in
         let seq := map (fun i => nth (Z.to_nat i) table []) (skipn (1 + ntab) zs) in
-        show_run cfg (process_records T.tiny_oracles cfg g_init (new_conn cfg) now 0%Z seq)
+        show_run cfg (process_records Transforms.tiny_oracles cfg g_init (new_conn cfg) now 0%Z seq)
     end
   end.
